@@ -44,8 +44,17 @@ IdVal(f) == <<Digit(f.l), Digit(f.r)>>
 UKey(f)  == <<85, Digit(f.l), Digit(f.r)>>               \* "U<l><r>"
 KKey     == <<75>>                                        \* "K"
 SecS     == <<83>>                                        \* "S"
+\* content shapes, named by one letter per role (main file, drop-ins) in the two-letter shape string:
+\*   b both (group-less keys and section S)   n group-less keys only   s section S only
+\*   h group-less keys followed by a header-only section: the line `[S]` with no key below it (a vendor
+\*     file whose section holds only commented-out defaults).  It contributes no entry: keys that other
+\*     files define in S must arrive all the same.
+MShape(s) == CASE s \in {"bb", "bn", "bs", "bh"} -> "both" [] s \in {"nb", "nn", "ns", "nh"} -> "nogroup"
+               [] s \in {"hb", "hn", "hs", "hh"} -> "header" [] OTHER -> "section"
+DShape(s) == CASE s \in {"bb", "nb", "sb", "hb"} -> "both" [] s \in {"bn", "nn", "sn", "hn"} -> "nogroup"
+               [] s \in {"bh", "nh", "sh", "hh"} -> "header" [] OTHER -> "section"
 Body(f, shape) ==
-  (IF shape \in {"both", "nogroup"} THEN <<Ent(NoG, KKey, IdVal(f)), Ent(NoG, UKey(f), <<49>>)>> ELSE <<>>)
+  (IF shape \in {"both", "nogroup", "header"} THEN <<Ent(NoG, KKey, IdVal(f)), Ent(NoG, UKey(f), <<49>>)>> ELSE <<>>)
   \o (IF shape \in {"both", "section"} THEN <<Ent(SecS, KKey, IdVal(f)), Ent(SecS, UKey(f), <<49>>)>> ELSE <<>>)
 Content(tree, f) == IF f.r = 0
                     THEN (IF tree.main[f.l] = "regular" THEN Body(f, tree.mshape) ELSE <<>>)   \* empty, /dev/null
